@@ -224,11 +224,13 @@ func (e *Enforcer) initialize() {
 // LoadModel reloads the model from the model CONF file.
 // Because the policy is attached to a model, so the policy is invalidated and needs to be reloaded by calling LoadPolicy().
 func (e *Enforcer) LoadModel() error {
-	var err error
-	e.model, err = model.NewModelFromFile(e.modelPath)
+	// keep the current model when the file cannot be read or parsed: a nil model would make
+	// every later call panic
+	m, err := model.NewModelFromFile(e.modelPath)
 	if err != nil {
 		return err
 	}
+	e.model = m
 	e.model.SetLogger(e.logger)
 
 	e.model.PrintModel()
